@@ -24,12 +24,51 @@ EXPLANATION = (
     "the tokenizer drops tokens adjacent to '*'; (5) routing totality — every parsed, non-cancelled rule "
     "reaches a list that some query probes (T_route, shared with C04)."
     " Later additions: (6) what the request tokenizer emits, as truth tables of its two decision regions walked edge by edge (the `*` tests apply to filter text only: request URLs are tokenized with wildcards = false), the token cap is at least the 127 of the property's premise; (7) de-duplication identity: insert_dup's ordering / equality reads the stored line hash; the public entry points between the parsers and the stores drop no rule, and the structural id (which ignores the tag) is used for $badfilter matching only; (8) visit-all loops (list construction, probing) contain no truncating iterator adapter and no `break`."
+    " Round 6: the functions that file rules into the engine's lists call nothing that takes elements out of a collection again (retain / dedup / truncate / remove / clear)."
 )
 NOT_DECIDED = ("Verdict equality on concrete (list, request) pairs; the precedence combination over concrete hits "
                "(skeleton: C04.2); the 127-token truncation; 64-bit hash collisions; each leaf matcher (C02).")
 
 NL = "network_filter_list::NetworkFilterList::"
 H = "filters::network::NetworkFilterMaskHelper::"
+
+
+SHRINKING_CALLS = re.compile(
+    r"^std::vec::Vec::(retain|retain_mut|dedup|dedup_by|dedup_by_key|truncate|remove|swap_remove|clear|"
+    r"extract_if)$|^std::collections::(HashMap|HashSet)::(retain|remove|clear|extract_if)$|"
+    r"^(itertools|blocker::_::itertools)::Itertools::(dedup|dedup_by|unique|unique_by)$")
+
+
+def rule_no_shrink(run, F, cfg):
+    """Who-may-call rule for the functions that sort parsed rules into the engine's lists (Blocker::new,
+    Blocker::add_filter, Blocker::tags_with_set, NetworkFilterList::new / add_filter): once a rule has been put
+    into a list nothing takes it out again -- no retain / dedup / truncate / remove / clear on the collections
+    these functions build (`drain`, `pop` and `split_off` hand the elements on and are not restricted). (What may be left out is decided before the push, by the routing table of C04.1 and the
+    identity rule C01.7; capacity calls such as shrink_to_fit do not change the content.)"""
+    roots = ["blocker::Blocker::new", "blocker::Blocker::add_filter", "blocker::Blocker::tags_with_set",
+             "network_filter_list::NetworkFilterList::new", "network_filter_list::NetworkFilterList::add_filter"]
+    found = []
+    n = 0
+    for r in roots:
+        fs = [f for nme, f in F.fns.items() if nme == r or nme.startswith(r + "::")]
+        if not fs:
+            run.ob("C01.5.routing-total", f"no-shrinking-call:{r.split('::')[-1]}", False, f"function `{r}` not found",
+                   status="UNDISCHARGED", config=cfg)
+            continue
+        for f in fs:
+            run.touched(f)
+            for b, t in f.calls():
+                n += 1
+                c = strip_generics(t["callee"])
+                if SHRINKING_CALLS.search(c):
+                    found.append((f.name.split("::", 1)[-1], c.split("::")[-1], f.loc(b)))
+    run.ob("C01.5.routing-total", "no-shrinking-call", not found,
+           f"the functions that file rules into the engine's lists ({', '.join(r.split('::', 1)[-1] for r in roots)}; {n} call "
+           f"sites) call nothing that removes elements from a collection again; found: {found}",
+           site=found[0][2] if found else "", config=cfg,
+           detail="a retain/dedup on a rule list drops rules after the routing decided to keep them: e.g. rules that "
+                  "differ only in their tag collapse when de-duplicated by the badfilter id")
+    run.floor("C01.5.routing-total", f"call sites scanned for shrinking calls [{cfg}]", n, 60)
 
 
 def check(run):
@@ -43,6 +82,7 @@ def check(run):
         run.guard("C01.3.exhaustive-probing", cfg, lambda: rule_exhaustive(run, F, cfg))
         run.guard("C01.4.token-boundary", cfg, lambda: rule_boundary(run, F, cfg))
         run.guard("C01.5.routing-total", cfg, lambda: rule_routing(run, F, cfg))
+        run.guard("C01.5.routing-total", cfg + "/no-shrink", lambda: rule_no_shrink(run, F, cfg))
         run.guard("C01.1.token-source", cfg + "/removeparam", lambda: rule_removeparam_tokens(run, F, cfg))
         run.guard("C01.1.token-source", cfg + "/scheme", lambda: rule_scheme_tokens(run, F, cfg))
         run.guard("C01.1.token-source", cfg + "/sources", lambda: rule_token_sources(run, F, cfg))
